@@ -41,6 +41,11 @@ type context struct {
 	// stack of open elements: only the outermost such element is remembered, until an end tag
 	// with its name is seen. It is "*" if that element has several possible names.
 	enclosing string
+	// inNoscript indicates that the parser is inside a noscript element. With scripting
+	// enabled its content is raw text that ends at the first "</noscript", wherever it is;
+	// without scripting it is markup. The escaper follows the markup, and refuses text in
+	// which the two readings would not end the element at the same place.
+	inNoscript bool
 }
 
 // eq returns whether Context c is equal to Context d.
@@ -60,6 +65,7 @@ func (c context) eq(d context) bool {
 func (c context) same(d context) bool {
 	return c.eq(d) &&
 		c.enclosing == d.enclosing &&
+		c.inNoscript == d.inNoscript &&
 		sameNames(c.element.names, d.element.names) &&
 		c.element.partial == d.element.partial &&
 		c.element.continued == d.element.continued &&
